@@ -148,6 +148,15 @@ func savedStructField(p *an.Prog, f *an.Fn, e ast.Expr, field string) (types.Obj
 		if len(binds) == 0 {
 			binds = p.HelperBinds(f.Root())[v]
 		}
+		if len(binds) == 0 {
+			// f itself is the helper (a recover handler written as a method): its parameters are bound by its callers
+			for _, u := range p.Units() {
+				if b := p.HelperBinds(u)[v]; len(b) > 0 {
+					binds = b
+					break
+				}
+			}
+		}
 		if len(binds) != 1 {
 			break
 		}
@@ -176,11 +185,72 @@ func savedStructField(p *an.Prog, f *an.Fn, e ast.Expr, field string) (types.Obj
 	return nil, "", false
 }
 
+// throughBinds follows an identifier that is a parameter (or receiver) of a helper — of f, of f's root, or f itself
+// when f is a handler method — to the local that every caller binds it to; other identifiers stand for themselves.
+func throughBinds(p *an.Prog, f *an.Fn, e ast.Expr) types.Object {
+	id, ok := an.Unparen(e).(*ast.Ident)
+	if !ok {
+		if u, isAddr := an.Unparen(e).(*ast.UnaryExpr); isAddr && u.Op == token.AND {
+			return throughBinds(p, f, u.X)
+		}
+		return nil
+	}
+	obj := an.ObjOf(f.Info(), id)
+	for depth := 0; depth < 3; depth++ {
+		v, isVar := obj.(*types.Var)
+		if !isVar {
+			break
+		}
+		binds := p.HelperBinds(f)[v]
+		if len(binds) == 0 {
+			binds = p.HelperBinds(f.Root())[v]
+		}
+		if len(binds) == 0 {
+			for _, u := range p.Units() {
+				if b := p.HelperBinds(u)[v]; len(b) > 0 {
+					binds = b
+					break
+				}
+			}
+		}
+		if len(binds) != 1 {
+			break
+		}
+		arg := an.Unparen(binds[0].Arg)
+		if u, isAddr := arg.(*ast.UnaryExpr); isAddr && u.Op == token.AND {
+			arg = an.Unparen(u.X)
+		}
+		bid, ok := arg.(*ast.Ident)
+		if !ok {
+			break
+		}
+		obj = an.ObjOf(f.Info(), bid)
+	}
+	return obj
+}
+
+// structMember: e is X.k with X (through binds) a local: returns that local and k.
+func structMember(p *an.Prog, f *an.Fn, e ast.Expr) (types.Object, string, bool) {
+	sel, ok := an.Unparen(e).(*ast.SelectorExpr)
+	if !ok {
+		return nil, "", false
+	}
+	obj := throughBinds(p, f, sel.X)
+	if obj == nil {
+		return nil, "", false
+	}
+	return obj, sel.Sel.Name, true
+}
+
 // savedStructLit: the single composite literal that defines local obj (directly or as the only result of a helper).
 func savedStructLit(p *an.Prog, f *an.Fn, obj types.Object) *ast.CompositeLit {
 	var lit *ast.CompositeLit
 	n := 0
-	for _, d := range an.LocalDefs(f.Root(), obj) {
+	owner := f.Root()
+	if o := p.OwnerFn(obj.Pos()); o != nil {
+		owner = o.Root() // (the local may belong to the function that handed it to f)
+	}
+	for _, d := range an.LocalDefs(owner, obj) {
 		n++
 		if d == nil {
 			return nil
@@ -194,7 +264,7 @@ func savedStructLit(p *an.Prog, f *an.Fn, obj types.Object) *ast.CompositeLit {
 			continue
 		}
 		if call, ok := d.(*ast.CallExpr); ok {
-			if h := p.NewHelperCallee(f.Root(), call); h != nil && h.Body != nil {
+			if h := p.NewHelperCallee(owner, call); h != nil && h.Body != nil {
 				var rets []*ast.ReturnStmt
 				ast.Inspect(h.Body, func(m ast.Node) bool {
 					if _, isLit := m.(*ast.FuncLit); isLit {
